@@ -1,41 +1,61 @@
 #!/usr/bin/env python3
 """maintenance helper (not a registered check): run the registered quick checks against seeded changes.
-usage: tools_seeds.py [seed-id ...]   (default: all under /verif/seeded)
-Applies seeded/<id>/patch.diff to /repo, runs ./check for every claimed property, reverts, prints which checks fire."""
-import json, os, subprocess, sys
+usage: tools_seeds.py [--inplace] [seed-id ...]   (default: all under /verif/seeded)
+Default mode works on a scratch worktree of /repo (VERIF_REPO) so that /repo and the registered evidence are untouched;
+--inplace applies each patch to /repo itself (git apply / git checkout -- .) as the brief describes."""
+import json, os, shutil, subprocess, sys
 V = "/verif"
+args = [a for a in sys.argv[1:] if not a.startswith("--")]
+inplace = "--inplace" in sys.argv
 man = json.load(open(V + "/MANIFEST.json"))
 props = [c["property_id"] for c in man["checks"]]
-seeds = sys.argv[1:] or sorted(os.listdir(V + "/seeded"))
+seeds = args or sorted(d for d in os.listdir(V + "/seeded") if os.path.isdir(V + "/seeded/" + d))
 res = {}
-assert subprocess.run(["git", "-C", "/repo", "status", "--porcelain"], capture_output=True, text=True).stdout.strip() == "", "/repo not clean"
-for s in seeds:
-    patch = "%s/seeded/%s/patch.diff" % (V, s)
-    if not os.path.exists(patch):
-        continue
-    r = subprocess.run(["git", "-C", "/repo", "apply", patch], capture_output=True, text=True)
-    if r.returncode != 0:
-        res[s] = {"error": "patch does not apply: " + r.stderr[:200]}
-        print(s, res[s]); continue
-    try:
-        fired = {}
+if os.path.exists(V + "/seeded/RESULTS.json"):
+    res = json.load(open(V + "/seeded/RESULTS.json"))
+env = dict(os.environ)
+if inplace:
+    repo = "/repo"
+    assert subprocess.run(["git", "-C", "/repo", "status", "--porcelain"], capture_output=True, text=True).stdout.strip() == "", "/repo not clean"
+else:
+    repo = "/tmp/seedrun/repo"
+    shutil.rmtree("/tmp/seedrun", ignore_errors=True)
+    subprocess.run(["git", "-C", "/repo", "worktree", "prune"], check=True)
+    subprocess.run(["git", "-C", "/repo", "worktree", "add", "-q", "--detach", repo, "HEAD"], check=True)
+    env["VERIF_REPO"] = repo
+    env["VERIF_EVIDENCE_DIR"] = "/tmp/seedrun/evidence"
+try:
+    for s in seeds:
+        patch = "%s/seeded/%s/patch.diff" % (V, s)
+        if not os.path.exists(patch):
+            continue
+        r = subprocess.run(["git", "-C", repo, "apply", patch], capture_output=True, text=True)
+        if r.returncode != 0:
+            res[s] = {"error": "patch does not apply: " + r.stderr[:200]}
+            print(s, res[s]); continue
+        try:
+            fired = {}
+            for p in props:
+                o = subprocess.run([V + "/check", p], capture_output=True, text=True, cwd=V, env=env)
+                v = [l for l in o.stdout.splitlines() if l.startswith("  finding ")]
+                if o.returncode == 1:
+                    fired[p] = [l.strip()[:300] for l in v]
+                elif o.returncode != 0:
+                    fired[p] = ["CHECK ERROR exit %d: %s" % (o.returncode, (o.stdout + o.stderr)[-300:])]
+            res[s] = fired
+        finally:
+            subprocess.run(["git", "-C", repo, "checkout", "--", "."], check=True)
+            subprocess.run(["git", "-C", repo, "clean", "-fdq", "--", "compiler"], check=False)
+        own = s.split("-")[0]
+        print("%s: %s%s" % (s, "CAUGHT by " + ",".join(sorted(res[s])) if res[s] else "missed", "" if not res[s] or own in res[s] else "  (not by its own property's check)"), flush=True)
+        for p, ls in res[s].items():
+            for l in ls[:3]:
+                print("     ", p, l, flush=True)
+finally:
+    if not inplace:
+        subprocess.run(["git", "-C", "/repo", "worktree", "remove", "--force", repo])
+        shutil.rmtree("/tmp/seedrun", ignore_errors=True)
+    json.dump(res, open(V + "/seeded/RESULTS.json", "w"), indent=1, sort_keys=True)
+    if inplace:
         for p in props:
-            o = subprocess.run([V + "/check", p], capture_output=True, text=True, cwd=V)
-            v = [l for l in o.stdout.splitlines() if l.startswith("  finding ")]
-            if o.returncode == 1:
-                fired[p] = [l.strip()[:260] for l in v]
-            elif o.returncode != 0:
-                fired[p] = ["CHECK ERROR exit %d: %s" % (o.returncode, (o.stdout + o.stderr)[-300:])]
-        res[s] = fired
-    finally:
-        subprocess.run(["git", "-C", "/repo", "checkout", "--", "."], check=True)
-        subprocess.run(["git", "-C", "/repo", "clean", "-fdq", "--", "compiler"], check=False)
-    own = s.split("-")[0]
-    print("%s: %s%s" % (s, "CAUGHT by " + ",".join(sorted(res[s])) if res[s] else "missed", "" if not res[s] or own in res[s] else "  (not by its own property's check)"))
-    for p, ls in res[s].items():
-        for l in ls[:4]:
-            print("     ", p, l)
-json.dump(res, open(V + "/seeded/RESULTS.json", "w"), indent=1)
-# restore evidence to the unchanged tree's
-for p in props:
-    subprocess.run([V + "/check", p], capture_output=True, text=True, cwd=V)
+            subprocess.run([V + "/check", p], capture_output=True, text=True, cwd=V)
